@@ -2546,6 +2546,63 @@ def c13_subsample_call_sites():
     return out
 
 
+def c13_allele_filters():
+    """Which VCF records count as SNPs in make_data_dict_vcf / make_data_dict_vcf_cyvcf2, and which ancestral alleles are used.  The `if` tests of the
+    two readers whose free names are exactly {ref, alt} (at least one per reader) and exactly {outgroup_allele} are evaluated, as written, for every
+    combination of a fixed list of allele strings (single bases, multi-base strings that are / are not substrings of 'ACGT', '', '.', '*', 'N',
+    'A,C', '-'):   a record is skipped  iff  ref or alt is not one of the four single bases;   the ancestral allele is replaced by '-' iff it is not
+    one of the four single bases.  (Expression-level extraction: what the surrounding parser does with the decision is left to the bounded drivers.
+    The strings are upper case, as both readers upper-case before testing.)"""
+    oid = 'C13/Misc.py:allele-filter'
+    out = []
+    mod = ModInfo.load('dadi/Misc.py')
+    from vf.pyvc import Env
+    STR = ['A', 'C', 'G', 'T', 'N', 'AC', 'CG', 'GT', 'ACG', 'CGT', 'ACGT', 'AT', 'TA', 'AA', '', '.', '*', 'A,C', '-']
+    BASES = ('A', 'C', 'G', 'T')
+
+    def names(e):
+        return {n.id for n in ast.walk(e) if isinstance(n, ast.Name)}
+    for fname in ('make_data_dict_vcf', 'make_data_dict_vcf_cyvcf2'):
+        fn = 'dadi/Misc.py::' + fname
+        node = mod.funcs.get(fname)
+        if node is None:
+            out.append(struct('%s.%s' % (oid, fname), False, 'function not found', fn, undecided=True))
+            continue
+        ifs = [n for n in ast.walk(node) if isinstance(n, ast.If)]
+        for kind, want_names in (('snp', {'ref', 'alt'}), ('ancestral', {'outgroup_allele'})):
+            tests = [n.test for n in ifs if names(n.test) == want_names]
+            o = '%s.%s.%s' % (oid, fname, kind)
+            if not tests:
+                out.append(struct(o, False, 'no test over exactly %s found in %s' % (sorted(want_names), fname), fn, undecided=True))
+                continue
+            for ti, test in enumerate(tests):
+                bad = []
+                nev = 0
+                try:
+                    combos = [(r_, a_) for r_ in STR for a_ in STR] if kind == 'snp' else [(x, None) for x in STR]
+                    for r_, a_ in combos:
+                        ex = Executor(policy=lambda fr: 'abstract')
+                        env = Env(None, mod)
+                        if kind == 'snp':
+                            env.vars.update(ref=r_, alt=a_)
+                            want = not (r_ in BASES and a_ in BASES)
+                        else:
+                            env.vars.update(outgroup_allele=r_)
+                            want = r_ not in BASES
+                        paths = ex.explore(lambda e, _t=test, _env=env: e.truth(e.eval(_t, _env, mod)))
+                        nev += 1
+                        if len(paths) != 1 or paths[0].outcome != 'return' or not isinstance(paths[0].value, bool):
+                            raise Unsupported('test not decided for %r' % ((r_, a_),))
+                        if paths[0].value != want:
+                            bad.append((r_, a_) if kind == 'snp' else r_)
+                    what = ('skipped iff ref or alt is not a single base A/C/G/T' if kind == 'snp' else 'ancestral allele dropped iff not a single base A/C/G/T')
+                    out.append(struct('%s.test%d' % (o, ti), not bad, '%s (%d combinations)' % (what, nev) if not bad else 'wrong decision for %s' % bad[:6], fn,
+                                      finding_key='C13/allele-filter/%s' % fname))
+                except (Unsupported, PyRaise, KeyError) as e_:
+                    out.append(struct('%s.test%d' % (o, ti), False, 'outside the modelled subset: %r' % (e_,), fn, undecided=True))
+    return out
+
+
 def c13_bootstraps_from_chunks():
     """Misc.bootstraps_from_dd_chunks: one spectrum per fragment (from_data_dict with the caller's pop_ids, projections, mask_corners,
     polarized), and every bootstrap is the sum of len(fragments) spectra drawn with replacement from exactly that list, re-wrapped with
